@@ -113,6 +113,9 @@ func c16Setup(prm c16Params) func(c *fw.Ctx, name string) explore.Setup {
 						first := 5
 						if prm.BigStream {
 							first = 5000
+							if k.Flate {
+								first = 70000 // more than one deflate block: the first frame is on the wire before Close
+							}
 						}
 						if _, err = wr.Write(fill(0xB0, first)); err != nil {
 							return
@@ -205,6 +208,35 @@ func c16Oracle(c *fw.Ctx, w *vs.World, name string, prm c16Params, st *c16State)
 	}
 	if w.Panic != "" {
 		violate(c, w, name, "C16/panic/"+locus, w.Panic)
+		return
+	}
+	if prm.Prop == "C06" {
+		// the first Close frame on the wire, whatever else the connection is doing
+		fs, _ := frame.ParseAll(st.p.Out)
+		for _, f := range fs {
+			if f.Opcode != frame.OpClose {
+				continue
+			}
+			want := ""
+			if prm.Init == "local" && !prm.NoStatus {
+				want = "\x03\xe8bye"
+			} else if prm.Init == "peer" {
+				want = "\x03\xe8" // the echo carries the peer's code (the echoed reason is not judged)
+			}
+			got := string(f.Payload)
+			if prm.Init == "peer" && len(got) > 2 {
+				got = got[:2]
+			}
+			c.OutcomeStr(fmt.Sprintf("%s|close rsv=%v%v%v fin=%v payload=%x", name, f.Rsv1, f.Rsv2, f.Rsv3, f.Fin, f.Payload))
+			switch {
+			case f.Rsv1 || f.Rsv2 || f.Rsv3 || !f.Fin:
+				violate(c, w, name, "C06/close-frame-malformed/reserved-bits/"+locus, fmt.Sprintf("the Close frame has fin=%v rsv1=%v rsv2=%v rsv3=%v: a conformant peer fails the connection instead of reading code and reason\nwire: %s", f.Fin, f.Rsv1, f.Rsv2, f.Rsv3, describeFrames(fs)))
+			case (prm.Init == "local" || prm.Init == "peer") && got != want:
+				violate(c, w, name, "C06/close-frame-differs/"+locus, fmt.Sprintf("the Close frame carries payload %x, want %x\nwire: %s", f.Payload, want, describeFrames(fs)))
+			}
+			return
+		}
+		c.OutcomeStr(name + "|no-close-frame")
 		return
 	}
 	if prm.Prop == "C02" {
@@ -335,11 +367,52 @@ func c02CloseScenarios(tier string) []scenario {
 			prm.Prop = "C02"
 			scs = append(scs, scenario{Name: "ac/" + prm.Name + "/" + k.String(), Cfg: tierCfg(tier, P(1), P(2)), Setup: c16Setup(prm)})
 		}
+		if k.Flate {
+			// a Close frame (own, or the echo of the peer's) right behind the first frame of a compressed stream
+			for _, prm := range []c16Params{
+				{Name: "local-never-wbig", K: k, Init: "local", Echo: "never", Writers: 2, BigStream: true},
+				{Name: "peer-wbig", K: k, Init: "peer", Echo: "early", Writers: 2, BigStream: true},
+			} {
+				if tier != "thorough" && prm.Name == "peer-wbig" {
+					continue // 36 s per role: a 70000-byte compression in every execution
+				}
+				prm.Prop = "C02"
+				scs = append(scs, scenario{Name: "ac/" + prm.Name + "/" + k.String(), Cfg: tierCfg(tier, P(1), P(2)), Setup: c16Setup(prm)})
+			}
+		}
+	}
+	return scs
+}
+
+// c06CloseFrameScenarios: the same histories judged for C06: the first Close frame
+// is a well-formed Close frame with exactly the code and reason passed (or the
+// peer's code), also when it is written in the middle of a (compressed) stream.
+func c06CloseFrameScenarios(tier string) []scenario {
+	var scs []scenario
+	P := func(p int) explore.Config { return explore.Config{P: p, T: 0, E: 0, Horizon: 120e9} }
+	for _, k := range []connCfg{{Client: false}, {Client: true}, {Client: false, Flate: true, Thr: 1}, {Client: true, Flate: true, Thr: 1, CNCT: true, SNCT: true}} {
+		for _, prm := range []c16Params{
+			{Name: "local-never-w2", K: k, Init: "local", Echo: "never", Writers: 2},
+			{Name: "peer-w2", K: k, Init: "peer", Echo: "early", Writers: 2},
+			{Name: "local-never-wbig", K: k, Init: "local", Echo: "never", Writers: 2, BigStream: true},
+			{Name: "peer-wbig", K: k, Init: "peer", Echo: "early", Writers: 2, BigStream: true},
+			{Name: "local-nostatus-w2", K: k, Init: "local", Echo: "never", Writers: 2, NoStatus: true},
+		} {
+			if tier != "thorough" && (k.Flate != prm.BigStream || prm.Name == "peer-wbig") {
+				continue
+			}
+			prm.Prop = "C06"
+			scs = append(scs, scenario{Name: "cf/" + prm.Name + "/" + k.String(), Cfg: tierCfg(tier, P(1), P(2)), Setup: c16Setup(prm)})
+		}
 	}
 	return scs
 }
 
 func init() {
+	fw.Register(fw.Part{Prop: "C06", Name: "s.closeframe",
+		Units:  func(tier string) []fw.Unit { return scenarioUnits(c06CloseFrameScenarios(tier)) },
+		Replay: replayFn(c06CloseFrameScenarios),
+	})
 	fw.Register(fw.Part{Prop: "C02", Name: "s.afterclose",
 		Units:  func(tier string) []fw.Unit { return scenarioUnits(c02CloseScenarios(tier)) },
 		Replay: replayFn(c02CloseScenarios),
